@@ -748,6 +748,9 @@ spec fn cmd_ok(r: Result<CommandLineOutput, SystemError>) -> bool { r matches Ok
             result matches Err(e) ==> e is NoCommandExecuted,
 //@ end
 
+spec fn displaced_or_recorded(w: World, p: Seq<char>, h: Map<Ticket, FileStateVec>, st: Ticket, k: int) -> bool {
+    !w.files.contains_key(p) || (h.contains_key(st) && sha256(w.files[p].content) == h[st].infos@[k].ticket.bytes())
+}
 // the command ran on world `mid` and produced `fin`
 spec fn ran(mid: World, fin: World, script: Seq<Seq<char>>) -> bool {
     &&& fin.execs == mid.execs.push(script)
@@ -771,6 +774,9 @@ spec fn path_strs(paths: Seq<Seq<char>>, idx: Seq<usize>) -> Seq<Seq<char>> { Se
 //@ spec
     requires inv(*old(w)), blob.wf(*old(w)), blob.all_rem_ok(),
         hist_wf(rule_history.map(), blob.file_infos@.len() as int),
+        // C08 at the moment the command starts: every target is either out of the way (displaced into the cache or absent)
+        // or holds exactly the output recorded for these sources, so whatever the command overwrites is not a last copy
+        forall|k: int| 0 <= k < blob.file_infos@.len() ==> displaced_or_recorded(*old(w), #[trigger] blob.file_infos@[k].path@, rule_history.map(), sources_ticket, k),   //# O-D-exec-displaced [C08]
     ensures
         ran(*old(w), *final(w), to_script(strs(command@))),                                             //# O-D-rebuild-one-exec [C02,C20]
         inv(*final(w)),                                                                                 //# O-D-rebuild-inv [C07]
@@ -901,6 +907,12 @@ spec fn hrn_trace(a: World, b: World, script: Seq<Seq<char>>, paths: Seq<Seq<cha
             proof {
                 assert(w_mid.execs.push(to_script(strs(rule_ext.command@))).len() != w_mid.execs.len());
                 if !rule_ext.rule_history.map().contains_key(rule_ext.sources_ticket) && info.blob.file_infos@.len() > 0 { assert(resolutions@[0] is NeedsRebuild); }
+                assert forall|k: int| 0 <= k < info.blob.file_infos@.len() implies
+                    displaced_or_recorded(w_mid, #[trigger] info.blob.file_infos@[k].path@, rule_ext.rule_history.map(), rule_ext.sources_ticket, k) by {
+                    if rule_ext.rule_history.map().contains_key(rule_ext.sources_ticket) {
+                        assert(res_ok(*old(w), w_mid, info.blob.file_infos@[k].path@, rule_ext.rule_history.map()[rule_ext.sources_ticket].infos@[k].ticket.bytes(), resolutions@[k]));
+                    }
+                }
             }
 //@ end
 
